@@ -32,13 +32,19 @@ AllCmds == UNION {{<<f, c>> : c \in Cmds(f)} : f \in Families}
 \* validation (a file whose data cannot be read inside an openable archive, a WDT with invalid flags, ...);
 \* the damaged classes are judged by the library first (verdict `lib`): only damage the library itself
 \* rejects creates an obligation.
-Damaged == {"empty", "trunc_head", "trunc_mid", "trunc_tail", "corrupt_magic", "corrupt_size", "corrupt_rand"}
+\* damage BY REGION of a container whose header points at tables (MPQ: hash table, block table): the file is cut strictly
+\* inside one table, every region stored before it intact.  (The positional classes above never leave one table whole and
+\* the next one unreadable.)  As with every damage class the library's verdict on the same bytes decides.
+RegionDamage == {"cut_hash", "cut_block"}
+Damaged == {"empty", "trunc_head", "trunc_mid", "trunc_tail", "corrupt_magic", "corrupt_size", "corrupt_rand"} \cup RegionDamage
 HeadDamage == {"empty", "trunc_head", "corrupt_magic"}          \* nothing can be read: no sub-command can do its job
 \* "flagviol": parses and passes the default validation, but violates the rule an optional validate flag enforces
 \* (blp --strict: each dimension a power of two; wdl --version V: chunks of a later format) -- the library is asked per flag.
 Inputs == {"valid", "flagged", "flagviol", "nonexistent"} \cup Damaged
 \* what may already be at the place a producing sub-command writes to; the obligations do not depend on it
-PreStates == {"empty", "shorter", "longer", "dir", "readonly"}
+\* "samelen": a regular file of exactly the length the output will have, every byte different (an older generation of the
+\* same fixed-size file in a reused output directory): nothing but the content tells it from the output
+PreStates == {"empty", "shorter", "longer", "samelen", "dir", "readonly"}
 LibVerdicts == {"ok", "err", "panic", "n/a"}
 
 \* sub-commands that by design consume the whole input (so any damage the library rejects defeats them)
@@ -165,9 +171,11 @@ Damage(n) ==
     /\ UNCHANGED <<vdisk, vmade, varch, vout, vlast, vextracted>>
 
 \* the output directory is not empty: a stale file of some name is already there (pre-state of a producer)
-Plant(n) ==
-    /\ ~vextracted /\ n \notin DOMAIN vout
-    /\ vout' = [m \in DOMAIN vout \cup {n} |-> IF m = n THEN "stale" ELSE vout[m]]
+\* "stale" = any other file; "stale_samelen" = a file with the length of the archive member of that name, other content
+StaleToks == {"stale", "stale_samelen"}
+Plant(n, st) ==
+    /\ vmade /\ ~vextracted /\ n \notin DOMAIN vout      \* (between create and extract: where the driver plants)
+    /\ vout' = [m \in DOMAIN vout \cup {n} |-> IF m = n THEN st ELSE vout[m]]
     /\ UNCHANGED <<vdisk, vmade, varch, vdamaged, vlast, vextracted>>
 
 \* mpq extract of a set of requested names (possibly absent ones), with or without --skip-errors; what was in
@@ -195,6 +203,20 @@ ExtractKeepsStale(req) ==
     /\ LET readable == (req \cap DOMAIN varch) \ vdamaged
            r == Run0("mpq", "extract", "valid")
            written == [n \in DOMAIN vout \cup readable |-> IF n \in DOMAIN vout THEN vout[n] ELSE varch[n]]
+           o == [NoOutcome EXCEPT !.want = {<<n, varch[n]>> : n \in readable}, !.got = AsSet(written)] IN
+       /\ vout' = written
+       /\ vlast' = [r |-> r, o |-> o]
+    /\ vextracted' = TRUE
+    /\ UNCHANGED <<vdisk, vmade, varch, vdamaged>>
+
+\* DEVIATION (seeded change class "skip what looks up to date"): a file already in the directory under a requested name whose
+\* METADATA equals the member's (same length) is not rewritten, the run still counts it and reports success
+ExtractSkipsSameLen(req) ==
+    /\ vmade /\ ~vextracted
+    /\ LET readable == (req \cap DOMAIN varch) \ vdamaged
+           r == Run0("mpq", "extract", "valid")
+           kept(n) == n \in DOMAIN vout /\ vout[n] = "stale_samelen"
+           written == [n \in DOMAIN vout \cup readable |-> IF n \in readable /\ ~kept(n) THEN varch[n] ELSE vout[n]]
            o == [NoOutcome EXCEPT !.want = {<<n, varch[n]>> : n \in readable}, !.got = AsSet(written)] IN
        /\ vout' = written
        /\ vlast' = [r |-> r, o |-> o]
@@ -238,7 +260,7 @@ Other(f, c, inp, lib) ==
 NextIntended ==
     \/ \E ok \in BOOLEAN : Create(ok)
     \/ \E n \in Names : Damage(n)
-    \/ \E n \in Names : Plant(n)
+    \/ \E n \in Names : \E st \in StaleToks : Plant(n, st)
     \/ \E req \in SUBSET Names : \E skip \in BOOLEAN : req # {} /\ Extract(req, skip)
     \/ Validate
     \/ View
@@ -246,6 +268,7 @@ NextIntended ==
           (inp = "nonexistent" => lib = "ok") /\ Other(fc[1], fc[2], inp, lib)
 NextDeviant == NextIntended \/ ValidateDeviant
 NextDeviant2 == NextIntended \/ \E req \in SUBSET Names : req # {} /\ ExtractKeepsStale(req)
+NextDeviant3 == NextIntended \/ \E req \in SUBSET Names : req # {} /\ ExtractSkipsSameLen(req)
 
 \* ---------------------------------------------------------------------------------------------------
 \* what TLC checks on the model
@@ -255,7 +278,7 @@ LastTruthful == HasRun => Truthful(vlast.r, vlast.o)
 \* -- whatever stale files were in the output directory before (a stale file under a requested name is ruled out by
 \* ExtractComplete: the wanted token must be there)
 RoundTrip == (vmade /\ vextracted /\ vdamaged = {}) =>
-             \A n \in DOMAIN vout : vout[n] = "stale" \/ (n \in DOMAIN vdisk /\ vout[n] = vdisk[n])
+             \A n \in DOMAIN vout : vout[n] \in StaleToks \/ (n \in DOMAIN vdisk /\ vout[n] = vdisk[n])
 \* exit 0 of an extraction means every requested readable file is there
 ExtractComplete == (HasRun /\ vlast.r.cmd = "extract" /\ vlast.o.exit = 0) => vlast.o.want \subseteq AsSet(vout)
 \* the matrix is total and single-valued, and is not vacuous: every sub-command has runs it must fail and runs it need not
@@ -266,5 +289,9 @@ MatrixNotVacuous == \A fc \in AllCmds :
                   /\ FailureClass([Run0(fc[1], fc[2], "empty") EXCEPT !.lib = "err"])
                   /\ ~FailureClass(Run0(fc[1], fc[2], "valid"))
                   /\ ~FailureClass([Run0(fc[1], fc[2], "trunc_tail") EXCEPT !.lib = "ok"])   \* damage the library tolerates binds nobody
+                  /\ \A rd \in RegionDamage : ~FailureClass([Run0(fc[1], fc[2], rd) EXCEPT !.lib = "ok"])
+\* a table the library cannot read defeats every whole-input sub-command of the container family, whichever table it is
+RegionDamageBinds == \A rd \in RegionDamage : \A c \in Cmds("mpq") :
+                  WholeByDesign("mpq", c) => FailureClass([Run0("mpq", c, rd) EXCEPT !.lib = "err"])
 EveryFamilyHasAProducer == \A f \in Families : \E c \in Cmds(f) : Producer(f, c)
 =============================================================================
